@@ -58,21 +58,37 @@ Theorem C09_crash_then_run : forall w1 f1 fl1 k d, plain d ->
   invoke_dir_full w faults fl (crash_dir w1 f1 fl1 k d) = invoke_dir_full w faults fl d.
 Proof. exact (p_crash_then_run w faults fl repaired). Qed.
 
-(* Invoke from its first line, with a magefiles/ directory: leftovers in "." and in magefiles/ *)
-Theorem C09_leftover_irrelevant_top : forall ohf d junk, plain d ->
-  invoke w faults fl ohf (set mainfile (File junk) d) = invoke w faults fl ohf d.
+(* Invoke from its first line ([invoke_named]: [tn] = the directory given is itself called
+   magefiles, [ohf] = "." has magefiles of its own next to a magefiles/ directory): leftovers in
+   "." and in magefiles/ *)
+Theorem C09_leftover_irrelevant_top : forall tn ohf d junk, plain d ->
+  invoke_named w faults fl tn ohf (set mainfile (File junk) d) = invoke_named w faults fl tn ohf d.
 Proof. exact (p_leftover_top w faults fl repaired). Qed.
 
-Theorem C09_leftover_irrelevant_magefilesdir : forall ohf d sub junk,
+Theorem C09_leftover_irrelevant_magefilesdir : forall tn ohf d sub junk,
   lookup d magefilesDir = Some (Dir sub) -> plain sub ->
-  invoke w faults fl ohf (set magefilesDir (Dir (set mainfile (File junk) sub)) d) = invoke w faults fl ohf d.
+  invoke_named w faults fl tn ohf (set magefilesDir (Dir (set mainfile (File junk) sub)) d) = invoke_named w faults fl tn ohf d.
 Proof. exact (p_leftover_sub w faults fl repaired). Qed.
 
-Theorem C09_clean_top : forall ohf d, f_keep fl = false ->
+Theorem C09_clean_top : forall tn ohf d, f_keep fl = false ->
   nolink d -> (forall sub, lookup d magefilesDir = Some (Dir sub) -> nolink sub) ->
-  fst (invoke w faults fl ohf d) = remove_stale_top d.
+  fst (invoke_named w faults fl tn ohf d) = remove_stale_top d.
 Proof. exact (p_clean_top w faults fl repaired repaired2). Qed.
 End W.
+
+(* where the "files without the mage tag" listing pass does not exist (a directory called magefiles,
+   the magefiles/ sub-directory: [f_mfdir]) a failure assigned to it changes nothing at all *)
+Theorem C09_no_nonmage_listing_in_magefiles_dir : forall w faults faults' fl d, f_mfdir fl = true ->
+  (forall st, st <> ListNonMage -> faults' st = faults st) ->
+  invoke_dir_full w faults' fl d = invoke_dir_full w faults fl d.
+Proof. exact listnonmage_absent. Qed.
+
+(* without a magefiles/ directory inside: Invoke runs in the directory it was given, as a
+   magefiles directory iff it is called so *)
+Theorem C09_directory_choice : forall w faults fl tn ohf d,
+  (forall sub, lookup (rs w d) magefilesDir <> Some (Dir sub)) ->
+  invoke_named w faults fl tn ohf d = invoke_dir w faults (with_mfdir fl tn) (rs w d).
+Proof. exact invoke_named_top. Qed.
 
 (* before commit 1372a21 ([w_cleanup] = false) C09_clean was FALSE: when the template write
    failed the truncated generated file stayed in the directory (GenerateMainfile's error return
@@ -139,6 +155,8 @@ Print Assumptions C09_crash_then_run.
 Print Assumptions C09_leftover_irrelevant_top.
 Print Assumptions C09_leftover_irrelevant_magefilesdir.
 Print Assumptions C09_clean_top.
+Print Assumptions C09_no_nonmage_listing_in_magefiles_dir.
+Print Assumptions C09_directory_choice.
 Print Assumptions C09_clean_before_repair_refuted.
 Print Assumptions C09_clean_before_repair_partial.
 Print Assumptions C09_leftover_before_repair_refuted.
